@@ -349,6 +349,44 @@ mod tests {
     }
 
     #[test]
+    fn test_read_after_invalid_block() -> io::Result<()> {
+        #[rustfmt::skip]
+        let data = [
+            // block 0 (b"noodles")
+            0x1f, 0x8b, 0x08, 0x04, 0x00, 0x00, 0x00, 0x00, 0x00, 0xff, 0x06, 0x00, 0x42, 0x43,
+            0x02, 0x00, 0x22, 0x00, 0xcb, 0xcb, 0xcf, 0x4f, 0xc9, 0x49, 0x2d, 0x06, 0x00, 0xa1,
+            0x58, 0x2a, 0x80, 0x07, 0x00, 0x00, 0x00,
+            // block 1 (b"bgzf", invalid CRC32)
+            0x1f, 0x8b, 0x08, 0x04, 0x00, 0x00, 0x00, 0x00, 0x00, 0xff, 0x06, 0x00, 0x42, 0x43,
+            0x02, 0x00, 0x1f, 0x00, 0x4b, 0x4a, 0xaf, 0x4a, 0x03, 0x00, 0x21, 0x68, 0xf2, 0x8c,
+            0x04, 0x00, 0x00, 0x00,
+            // EOF block
+            0x1f, 0x8b, 0x08, 0x04, 0x00, 0x00, 0x00, 0x00, 0x00, 0xff, 0x06, 0x00, 0x42, 0x43,
+            0x02, 0x00, 0x1b, 0x00, 0x03, 0x00, 0x00, 0x00, 0x00, 0x00, 0x00, 0x00, 0x00, 0x00,
+        ];
+
+        let mut reader = Reader::new(&data[..]);
+
+        let mut buf = [0; 7];
+        reader.read_exact(&mut buf)?;
+        assert_eq!(&buf, b"noodles");
+
+        let position = reader.virtual_position();
+
+        let mut buf = [0; 4];
+        assert!(matches!(
+            reader.read(&mut buf),
+            Err(e) if e.kind() == io::ErrorKind::InvalidData
+        ));
+
+        // The invalid block is not readable, and the position did not move backwards.
+        assert_eq!(reader.virtual_position(), position);
+        assert_eq!(reader.read(&mut buf)?, 0);
+
+        Ok(())
+    }
+
+    #[test]
     fn test_seek() -> Result<(), Box<dyn std::error::Error>> {
         #[rustfmt::skip]
         let data = [
